@@ -5,13 +5,17 @@ import subprocess, os
 def run(Ctx, CHECKS):
     os.makedirs(Ctx.BUILD, exist_ok=True)
     Ctx.ensure_generated()
-    # one cargo invocation per workspace package keeps feature sets apart
-    pkgs = [("h_runtime", None), ("h_loom_arc", None), ("h_task", None), ("h_loom_task", None), ("expander", None), ("h_objects", None), ("h_life", None)]
-    for pkg, feats in pkgs:
-        cmd = ["cargo", "build", "--offline", "--release", "-p", pkg]
-        if feats:
-            cmd += ["--features", feats]
-        p = subprocess.run(cmd, cwd=Ctx.ENGINE, env=Ctx.ENV)
+    # the main engine workspace: one cargo invocation per package keeps feature sets apart
+    for pkg in ["h_runtime", "h_loom_arc", "h_task", "h_loom_task", "expander", "h_objects", "h_life"]:
+        p = subprocess.run(["cargo", "build", "--offline", "--release", "-p", pkg], cwd=Ctx.ENGINE, env=Ctx.ENV)
         if p.returncode != 0:
             return 2
+    # python-driven engines build in their own workspaces/target dirs: warm them by one quick run each
+    # (the verdicts of these warm-up runs are ignored here; the checks themselves are run afterwards)
+    for mod, prop in [("expand_c03", "C03"), ("sendsync_c09", "C09"), ("layout_c20", "C20"), ("xmod_c05", "C05"), ("bindgen_c17", "C17")]:
+        try:
+            m = __import__(mod)
+            m.run(prop, "quick", None, Ctx)
+        except Exception as e:  # noqa
+            Ctx.log("[setup] warm-up of %s failed: %s" % (mod, e))
     return 0
